@@ -185,3 +185,65 @@ def depth_of(n) -> int:
     if n[0] == "tag":
         return 1 + max([depth_of(c) for c in n[4]] + [0])
     return 1
+
+
+# shared case generator for the exact-string rendering properties -----------------------------
+def render_lines(rng, tier: str, budget, all_fns=None, eols_quick=((0, "\n"), (2, "<!>")),
+                 eols_thorough=((0, "\n"), (1, ""), (3, "<!>"), (2, "\r\n")), bound_quick=4, bound_thorough=5,
+                 leaves=None, tags=None, rand_leaves=("text", "html", "robj", "meta")):
+    """-> (lines, scopes): render_tag / render_list wire lines"""
+    from wire import enode, enodes, es, eb
+    lines = []
+    scopes = []
+    bound = bound_quick if tier == "quick" else bound_thorough
+    cfgs = eols_quick if tier == "quick" else eols_thorough
+    n_ex = 0
+    for t in trees_upto(bound, leaves, tags):
+        if t[0] != "tag":
+            continue
+        for (i, e) in cfgs:
+            lines.append(f"render_tag {enode(t)} {i} {es(e)}")
+        n_ex += 1
+    scopes.append({"scope": f"all tag-rooted trees with <= {bound} nodes over {len(tags or small_tags())} tag kinds x "
+                            f"{len(leaves or small_leaves())} leaf kinds x {len(cfgs)} (indent, eol) settings",
+                   "trees": n_ex, "exhaustive": True})
+    fb = 3 if tier == "quick" else 4
+    n_f = 0
+    for f in forests_upto(fb, leaves, tags):
+        for aw in (True, False):
+            for (i, e) in cfgs[:2]:
+                lines.append(f"render_list {enodes(f)} {i} {es(e)} {eb(aw)} T")
+        n_f += 1
+    scopes.append({"scope": f"all top-level lists with <= {fb} nodes x add_ws x 2 (indent, eol) settings", "lists": n_f, "exhaustive": True})
+    # every tag function as parent and as child, with its own default flag
+    if all_fns:
+        for (nm, ws) in all_fns:
+            for kids in ([], [("text", "t")], [("text", "a"), ("tag", "span", False, [], [("text", "b")])],
+                         [("tag", "div", True, [], [])], [("meta", 1)]):
+                lines.append(f"render_tag {enode(('tag', nm, ws, [], kids))} 1 {es(chr(10))}")
+            for (pn, pws) in (("div", True), ("span", False)):
+                lines.append(f"render_tag {enode(('tag', pn, pws, [], [('text', 'x'), ('tag', nm, ws, [], [('text', 'y')]), ('text', 'z')]))} 0 {es(chr(10))}")
+        scopes.append({"scope": "every tags/svg function (name, default flag) as parent of 5 child patterns and as child of block/inline parent",
+                       "functions": len(all_fns), "exhaustive": True})
+    for _ in range(budget(2000, 60000)):
+        t = rand_tag(rng, rng.randint(1, 8), leaves=rand_leaves, all_names=all_fns)
+        i = rng.choice([0, 0, 1, 2, 5])
+        e = rng.choice(["\n", "\n", "", "\r\n", "<!>", " ", "\n\n"])
+        lines.append(f"render_tag {enode(t)} {i} {es(e)}")
+    for _ in range(budget(600, 15000)):
+        ks = [rand_node(rng, rng.randint(0, 4), leaves=rand_leaves, all_names=all_fns) for _ in range(rng.randint(0, 6))]
+        i = rng.choice([0, 1, 3])
+        e = rng.choice(["\n", "", "<!>"])
+        lines.append(f"render_list {enodes(ks)} {i} {es(e)} {eb(rng.random() < 0.6)} {eb(rng.random() < 0.85)}")
+    return lines, scopes
+
+
+def fn_catalogue(info) -> list[tuple[str, bool]]:
+    """(name, default add_ws) for every wrapper row the translator found"""
+    out = []
+    seen = set()
+    for r in info.get("html_rows", []) + info.get("svg_rows", []):
+        if r["shape"] and r["lit"] not in seen:
+            seen.add(r["lit"])
+            out.append((r["lit"], r["dflt"]))
+    return out
